@@ -6,6 +6,7 @@ import (
 	"encoding/json"
 	"os"
 	"path/filepath"
+	"time"
 
 	"github.com/criyle/go-sandbox/container"
 	"github.com/criyle/go-sandbox/pkg/mount"
@@ -87,6 +88,18 @@ func NsRunner(scratch string, args []string) (*unshare.Runner, error) {
 		Seccomp: AllowAll(), Root: root, Mounts: mt,
 		HostName: "verif", DomainName: "verif",
 	}, nil
+}
+
+// Guard runs f and reports whether it returned within d.
+func Guard(d time.Duration, f func()) bool {
+	done := make(chan struct{})
+	go func() { defer close(done); f() }()
+	select {
+	case <-done:
+		return true
+	case <-time.After(d):
+		return false
+	}
 }
 
 // Cases reads JSON lines from stdin, calls f, writes JSON lines to stdout.
